@@ -155,7 +155,7 @@ def run(ctx):
     ctx.sample({"three_way_table": {f"base={b},other={o},this={t}": r for (b, o, t), r in table3.items()}})
 
     sizes = {}
-    for k in (1, 2, 3):
+    for k in ((1, 2, 3, 4, 5) if ctx.tier == "thorough" else (1, 2, 3)):  # thorough: up to 5 LCAs (Bell(8) = 4140 partitions x 2)
         n = k + 3
         cnt = 0
         for p in set_partitions(n):
